@@ -316,6 +316,18 @@ def o_snap_grid(case, T):
 # --------------------------------------------------------------------- decompose_rws
 @st.composite
 def s_rws(draw):
+    if draw(st.integers(0, 4)) == 0:
+        # small integer matrices (pythagorean rotations, shears, mirrors): exactly representable, and usable as an
+        # integer-typed 2x2 array (decompose_rws takes Affine or ndarray)
+        e = st.integers(-9, 9)
+        a, b, d, ee = draw(e), draw(e), draw(e), draw(e)
+        if draw(st.booleans()):
+            p, q = draw(st.sampled_from([(3, 4), (4, 3), (5, 12), (8, 15), (0, 1), (1, 1)]))
+            k = draw(st.sampled_from([1, 1, -1, 2]))
+            a, b, d, ee = p, -q * k, q, p * k
+        if a * ee - b * d == 0:
+            a, b, d, ee = 3, -4, 4, 3
+        return {"A": [float(a), float(b), float(draw(st.integers(-100, 100))), float(d), float(ee), float(draw(st.integers(-100, 100)))], "klass": "integer_matrix", "int_dtype": draw(st.sampled_from(["int64", "int32", "float32", "float64"]))}
     coeffs, fam, klass = draw(affines(family="general"))
     return {"A": coeffs, "klass": klass}
 
@@ -341,6 +353,19 @@ def o_rws(case, T):
     require(w[0, 0] == 1 and w[1, 1] == 1 and w[1, 0] == 0 or (abs(w[0, 0] - 1) < 1e-12 and abs(w[1, 1] - 1) < 1e-12 and abs(w[1, 0]) < 1e-12 * max(1, cond)), "W not upper unit-triangular: %r", w.tolist())
     require(s[0, 1] == 0 and s[1, 0] == 0, "S not diagonal: %r", s.tolist())
     require((R.c, R.f) == (A.c, A.f), "translation not carried on R")
+    # the ndarray form of the same matrix (float64 always; the generated dtype for integer matrices)
+    for dt in ["float64"] + ([case["int_dtype"]] if case.get("int_dtype") else []):
+        m_in = m.astype(dt)
+        keep = m_in.copy()
+        r2, w2, s2 = M.decompose_rws(m_in)
+        require(np.array_equal(m_in, keep), "decompose_rws modified its %s input array", dt)
+        tol2 = (1e-9 if dt != "float32" else 1e-5) * cond
+        err2 = np.abs(np.asarray(r2, dtype="float64") @ np.asarray(w2, dtype="float64") @ np.asarray(s2, dtype="float64") - m).max() / scale
+        require(err2 < tol2, "ndarray[%s] input: R*W*S differs from A by %.3g relative: A=%r R=%r", dt, err2, m.tolist(), np.asarray(r2).tolist())
+        require(np.abs(np.asarray(r2, dtype="float64").T @ np.asarray(r2, dtype="float64") - np.eye(2)).max() < tol2, "ndarray[%s] input: R is not orthonormal: %r", dt, np.asarray(r2).tolist())
+        require(abs(np.linalg.det(np.asarray(r2, dtype="float64")) - 1) < tol2, "ndarray[%s] input: det R != +1", dt)
+        if dt != "float64":
+            T.cls("ndarray_input:" + dt)
     res = M.resolution_from_affine(A)
     if M.is_affine_st(A):
         require(res.x == A.a and res.y == A.e, "resolution_from_affine axis aligned: %r", res)
